@@ -1,1 +1,304 @@
-//! Independent structural checker (E4). Shares no code with parity-db.
+//! Independent structural checker ("fsck") for parity-db database directories.
+//!
+//! Shares no code with parity-db: every file is parsed from the documented on-disk layout.
+//! See README.md for the list of checks and tolerated states.
+
+mod btree;
+mod compress;
+mod hash;
+mod index;
+mod refcount;
+mod report;
+mod sparse;
+mod table;
+mod tree;
+
+#[cfg(test)]
+mod tests;
+
+use report::Rep;
+use std::{collections::BTreeMap, path::Path};
+use table::{State, Table, Tables};
+
+#[derive(Clone, Debug)]
+pub struct ColSpec {
+	pub btree: bool,
+	pub multitree: bool,
+	pub ref_counted: bool,
+	pub preimage: bool,
+	pub uniform: bool,
+	pub append_only: bool,
+	/// 0 none, 1 lz4, 2 snappy
+	pub compression: u8,
+}
+
+#[derive(Clone, Debug)]
+pub enum Expect {
+	/// nothing known about the logical content: only self-consistency is checked
+	Unknown,
+	/// hash column: (hashed key (32 bytes), value, reference count (1 for non-counted columns))
+	Hash(Vec<([u8; 32], Vec<u8>, u32)>),
+	/// btree column: ordered (key, value [, rc])
+	Btree(Vec<(Vec<u8>, Vec<u8>, u32)>),
+	/// multitree column: live roots: (hashed root key, data, child addresses, root count) and
+	/// live nodes: (address, data, child addresses, number of referencing parents incl. roots,
+	/// duplicates counted)
+	Tree { roots: Vec<([u8; 32], Vec<u8>, Vec<u64>, u32)>, nodes: Vec<(u64, Vec<u8>, Vec<u64>, u64)> },
+}
+
+#[derive(Clone, Debug, Default)]
+pub struct FsckReport {
+	pub errors: Vec<String>,
+	pub stats: BTreeMap<String, u64>,
+}
+
+/// Check the database directory `dir` whose columns are described by `cols`. `expect[i]` is the
+/// expected logical content of column `i` (missing entries mean `Expect::Unknown`).
+pub fn check_dir(dir: &Path, cols: &[ColSpec], expect: &[Expect]) -> FsckReport {
+	let r = std::panic::catch_unwind(std::panic::AssertUnwindSafe(|| {
+		let mut rep = Rep::default();
+		check(dir, cols, expect, &mut rep);
+		rep
+	}));
+	let mut rep = match r {
+		Ok(rep) => rep,
+		Err(p) => {
+			let msg = p
+				.downcast_ref::<String>()
+				.cloned()
+				.or_else(|| p.downcast_ref::<&str>().map(|s| s.to_string()))
+				.unwrap_or_else(|| "?".into());
+			let mut rep = Rep::default();
+			rep.err("internal_panic", msg);
+			rep
+		},
+	};
+	if rep.suppressed > 0 {
+		let n = rep.suppressed;
+		rep.add("errors_suppressed", n);
+	}
+	for k in [
+		"tables",
+		"slots_live",
+		"slots_free",
+		"chains_multipart",
+		"index_entries",
+		"index_stale_entries",
+		"index_files",
+		"btree_depth",
+		"btree_nodes",
+		"tree_nodes",
+		"tree_roots",
+		"refcount_entries",
+		"values_compared",
+	] {
+		rep.add(k, 0);
+	}
+	FsckReport { errors: rep.errors, stats: rep.stats }
+}
+
+#[derive(Default)]
+struct ColFiles {
+	tables: Vec<(u8, std::path::PathBuf)>,
+	indexes: Vec<(u8, std::path::PathBuf)>,
+	refcounts: Vec<(u8, std::path::PathBuf)>,
+}
+
+fn check(dir: &Path, cols: &[ColSpec], expect: &[Expect], rep: &mut Rep) {
+	let rd = match std::fs::read_dir(dir) {
+		Ok(rd) => rd,
+		Err(e) => {
+			rep.err("file_io", format!("cannot list {}: {}", dir.display(), e));
+			return
+		},
+	};
+	let mut names: Vec<(String, std::path::PathBuf, u64)> = Vec::new();
+	for e in rd.flatten() {
+		let name = e.file_name().to_string_lossy().to_string();
+		let len = e.metadata().map(|m| m.len()).unwrap_or(0);
+		names.push((name, e.path(), len));
+	}
+	names.sort();
+	let mut files: Vec<ColFiles> = (0..cols.len()).map(|_| ColFiles::default()).collect();
+	for (name, path, len) in names {
+		if name == "metadata" {
+			check_metadata(&path, cols.len(), rep);
+			continue
+		}
+		if name == "lock" || name == "stats.txt" {
+			continue
+		}
+		if let Some(n) = name.strip_prefix("log") {
+			if n.parse::<u32>().is_ok() {
+				if len > 0 {
+					rep.err(
+						"file_unexpected_log",
+						format!("{} holds {} bytes: the database is not quiescent", name, len),
+					);
+				}
+				continue
+			}
+		}
+		let parsed = parse_name(&name);
+		match parsed {
+			Some((kind, col, n)) if (col as usize) < cols.len() => {
+				let f = &mut files[col as usize];
+				match kind {
+					'T' => f.tables.push((n, path)),
+					'I' => f.indexes.push((n, path)),
+					_ => f.refcounts.push((n, path)),
+				}
+			},
+			Some((_, col, _)) => rep.err(
+				"file_unexpected",
+				format!("{} belongs to column {} but only {} columns are configured", name, col, cols.len()),
+			),
+			None => rep.err("file_unexpected", format!("{}: unknown file name", name)),
+		}
+	}
+
+	for (col, spec) in cols.iter().enumerate() {
+		let f = &mut files[col];
+		let expect = expect.get(col).unwrap_or(&Expect::Unknown);
+		check_column(col, spec, f, expect, rep);
+	}
+}
+
+/// `table_CC_TT` (TT hex), `index_CC_BITS`, `refcount_CC_BITS`
+fn parse_name(name: &str) -> Option<(char, u8, u8)> {
+	let mut it = name.split('_');
+	let kind = it.next()?;
+	let col = it.next()?;
+	let n = it.next()?;
+	if it.next().is_some() || col.len() < 2 || !col.bytes().all(|b| b.is_ascii_digit()) {
+		return None
+	}
+	let col: u8 = col.parse().ok()?;
+	match kind {
+		"table" if n.len() == 2 => Some(('T', col, u8::from_str_radix(n, 16).ok()?)),
+		"index" => Some(('I', col, n.parse().ok()?)),
+		"refcount" => Some(('R', col, n.parse().ok()?)),
+		_ => None,
+	}
+}
+
+fn check_metadata(path: &Path, ncols: usize, rep: &mut Rep) {
+	let text = match std::fs::read_to_string(path) {
+		Ok(t) => t,
+		Err(e) => {
+			rep.err("file_io", format!("metadata: {}", e));
+			return
+		},
+	};
+	let mut cols = 0;
+	for line in text.lines() {
+		if let Some(v) = line.strip_prefix("version=") {
+			if v.trim() != "8" {
+				rep.err(
+					"metadata_invalid",
+					format!("database version {} (this checker knows the version 8 layout)", v),
+				);
+			}
+		} else if line.starts_with("col") {
+			cols += 1;
+		}
+	}
+	if cols != ncols {
+		rep.err(
+			"metadata_invalid",
+			format!("metadata describes {} columns, {} were given", cols, ncols),
+		);
+	}
+}
+
+fn check_column(col: usize, spec: &ColSpec, f: &mut ColFiles, expect: &Expect, rep: &mut Rep) {
+	// value tables
+	let mut t: Vec<Option<Table>> = (0..256).map(|_| None).collect();
+	f.tables.sort();
+	for (tier, path) in &f.tables {
+		rep.add("tables", 1);
+		if let Some(mut table) = Table::load(path, col, *tier, rep) {
+			table.analyze(!spec.btree, rep);
+			let mut live = 0u64;
+			for s in &table.state {
+				if matches!(s, State::Head | State::Cont) {
+					live += 1;
+				}
+			}
+			rep.add("slots_live", live);
+			rep.add("slots_free", table.free_len);
+			if table.multipart {
+				rep.add("chains_multipart", table.heads().count() as u64);
+			}
+			t[*tier as usize] = Some(table);
+		}
+	}
+	let tables = Tables { t };
+
+	let is_hash = !spec.btree;
+	let has_rc = is_hash && spec.multitree && !spec.append_only;
+	// newest (highest number of bits) first
+	f.indexes.sort_by(|a, b| b.0.cmp(&a.0));
+	f.refcounts.sort_by(|a, b| b.0.cmp(&a.0));
+	let mut idx = Vec::new();
+	for (bits, path) in &f.indexes {
+		if !is_hash {
+			rep.err(
+				"file_unexpected",
+				format!("index_{:02}_{}: index file in a b-tree column", col, bits),
+			);
+			continue
+		}
+		if let Some(i) = index::IndexFile::load(path, col, *bits, rep) {
+			idx.push(i);
+		}
+	}
+	let mut rcs = Vec::new();
+	for (bits, path) in &f.refcounts {
+		if !has_rc {
+			rep.err(
+				"file_unexpected",
+				format!(
+					"refcount_{:02}_{}: ref-count table in a column that does not count node references",
+					col, bits
+				),
+			);
+			continue
+		}
+		if let Some(r) = refcount::RefCountFile::load(path, col, *bits, rep) {
+			rcs.push(r);
+		}
+	}
+
+	if spec.btree {
+		let e = match expect {
+			Expect::Btree(e) => Some(e.as_slice()),
+			Expect::Unknown => None,
+			_ => {
+				rep.err("expect_invalid", format!("col {}: b-tree column needs Expect::Btree", col));
+				None
+			},
+		};
+		btree::check_btree(col, spec, &tables, e, rep);
+	} else if spec.multitree {
+		let e = match expect {
+			Expect::Tree { roots, nodes } => Some((roots.as_slice(), nodes.as_slice())),
+			Expect::Unknown => None,
+			_ => {
+				rep.err("expect_invalid", format!("col {}: multitree column needs Expect::Tree", col));
+				None
+			},
+		};
+		tree::check_tree(col, spec, &tables, &idx, &rcs, e, rep);
+	} else {
+		let e = match expect {
+			Expect::Hash(e) => Some(e.as_slice()),
+			Expect::Unknown => None,
+			_ => {
+				rep.err("expect_invalid", format!("col {}: hash column needs Expect::Hash", col));
+				None
+			},
+		};
+		hash::check_hash(col, spec, &tables, &idx, e, rep);
+	}
+}
